@@ -1,6 +1,7 @@
 ---- MODULE WbDecoder_MC ----
-(* Leg A for C07: 3-bit word addresses, 1 or 2 granules per word, <= MaxSubs windows of 2 or 4   *)
-(* words (dense) in every order, feature subsets, every request and response vector.  The        *)
+(* Leg A for C07: 3-bit word addresses, 1 or 2 granules per word, <= MaxSubs windows (dense: 2    *)
+(* or 4 words; sparse: 2, 4 or 8 granules) in every order, feature subsets, every request and     *)
+(* response vector.  The                                                                          *)
 (* canonical output (what the generator is documented to emit: pattern = high address bits with  *)
 (* the granularity bits stripped) is checked against the declarative statement.                  *)
 EXTENDS WbDecoder, TLC, Json
@@ -11,29 +12,37 @@ F(e, s, l, c) == [err |-> e, rty |-> e, stall |-> s, lock |-> l, cti |-> c, bte 
 DecFeats == {F(e, s, l, c) : e \in {0, 1}, s \in {0, 1}, l \in {0, 1}, c \in {0, 1}}
 \* a subordinate may not have a response line the decoder lacks
 SubFeats(df) == {f \in DecFeats : f.err <= df.err /\ f.stall <= df.stall /\ f.lock = f.cti}
-Win(g) == {[dense |-> 1, aw |-> a, start |-> s * g, span |-> Pow2(a) * g] : a \in {1, 2}, s \in 0..7}
-OkWin(w, g) == (w.start \div g) % Pow2(w.aw) = 0 /\ w.start + w.span <= Pow2(AW) * g
+\* windows in units of the decoder's memory map (granules): a dense window over a subordinate with
+\* `aw` word-address bits spans 2^aw words; a sparse window over a one-granule-wide subordinate with
+\* `aw` address bits spans 2^aw granules (at least one word)
+Win(g) == {[dense |-> 1, aw |-> a, start |-> s * g, span |-> Pow2(a) * g] : a \in {1, 2}, s \in 0..7} \cup
+          {[dense |-> 0, aw |-> a, start |-> s, span |-> Pow2(a)] : a \in {1, 2, 3}, s \in 0..15}
+OkWin(w, g) == w.start % w.span = 0 /\ w.start + w.span <= Pow2(AW) * g /\ w.span >= g
 Disj(a, b) == a.start + a.span <= b.start \/ b.start + b.span <= a.start
 Layouts(g) == UNION {{s \in [1..n -> {w \in Win(g) : OkWin(w, g)}] :
                         \A i, j \in 1..n : i # j => Disj(s[i], s[j])} : n \in 0..MaxSubs}
-Keys == {[g |-> g, feat |-> df, wins |-> ws, sf |-> sf] :
-            g \in {1, 2}, df \in {F(1, 1, 1, 1), F(0, 0, 0, 0), F(1, 0, 0, 1)}, ws \in Layouts(2),
-            sf \in {"same", "none"}} 
-cfg == [aw |-> AW, g |-> key.g, feat |-> key.feat,
-        subs |-> [k \in 1..Len(key.wins) |->
-                   [dense |-> 1, aw |-> key.wins[k].aw,
-                    start |-> (key.wins[k].start \div 2) * key.g, span |-> (key.wins[k].span \div 2) * key.g,
-                    feat |-> IF key.sf = "same" THEN key.feat ELSE F(0, 0, 0, 0)]]]
-N == Len(key.wins)
+Keys == UNION {{[g |-> g, feat |-> df, wins |-> ws, sf |-> sf] :
+                 df \in {F(1, 1, 1, 1), F(0, 0, 0, 0), F(1, 0, 0, 1)}, ws \in Layouts(g), sf \in {"same", "none"}} : g \in {1, 2}}
+\* the configuration is derived once per key and carried in the state (cheap transitions)
+Full(k) == [aw |-> AW, g |-> k.g, feat |-> k.feat,
+            subs |-> [j \in 1..Len(k.wins) |->
+                       [dense |-> k.wins[j].dense, aw |-> k.wins[j].aw,
+                        start |-> k.wins[j].start, span |-> k.wins[j].span,
+                        feat |-> IF k.sf = "same" THEN k.feat ELSE F(0, 0, 0, 0)]]]
+cfg == key
+N == Len(key.subs)
 Resp == [ack : {0, 1}, err : {0, 1}, rty : {0}, stall : {0, 1}, dat_r : {<<0>>, <<1>>}]
 Quiet(d) == [ack |-> 0, err |-> 0, rty |-> 0, stall |-> 0, dat_r |-> d]
 Inputs == {[adr |-> a, cyc |-> c, stb |-> s, we |-> s, lock |-> l, cti |-> l, bte |-> 0,
-            sel |-> [b \in 1..key.g |-> s], dat_w |-> <<l>>,
+            sel |-> [b \in 1..cfg.g |-> s], dat_w |-> <<l>>,
             subs |-> [k \in 1..N |-> IF k \in WSel(cfg, a) /\ c = 1 THEN r ELSE Quiet(d)]] :
             a \in 0..7, c \in {0, 1}, s \in {0, 1}, l \in {0, 1}, r \in Resp, d \in {<<0>>, <<1>>}}
 \* the generator's rule: pattern over the map address with the granularity bits stripped
 Canon(i) ==
-  LET hit(k) == i.adr \div Pow2(cfg.subs[k].aw) = (cfg.subs[k].start \div cfg.g) \div Pow2(cfg.subs[k].aw)
+  LET \* address bits of the subordinate's memory map, and the pattern's constant bits compared
+      \* against the word address with the granularity bits stripped from the pattern
+      maw(k) == IF cfg.subs[k].dense = 1 THEN cfg.subs[k].aw + CeilLog2(cfg.g) ELSE cfg.subs[k].aw
+      hit(k) == (i.adr * cfg.g) \div Pow2(maw(k)) = cfg.subs[k].start \div Pow2(maw(k))
       sel == {k \in 1..N : hit(k)} IN
   [ack |-> IF \E k \in 1..N : i.subs[k].ack = 1 THEN 1 ELSE 0,
    err |-> IF \E k \in 1..N : cfg.subs[k].feat.err = 1 /\ i.subs[k].err = 1 THEN 1 ELSE 0,
@@ -41,10 +50,10 @@ Canon(i) ==
    stall |-> IF \E k \in 1..N : cfg.subs[k].feat.stall = 1 /\ i.subs[k].stall = 1 THEN 1 ELSE 0,
    dat_r |-> IF sel = {} THEN <<0>> ELSE i.subs[CHOOSE k \in sel : TRUE].dat_r,
    subs |-> [k \in 1..N |-> [cyc |-> IF hit(k) THEN i.cyc ELSE 0, stb |-> i.stb, we |-> i.we,
-                             adr |-> i.adr % Pow2(cfg.subs[k].aw),
+                             adr |-> IF cfg.subs[k].dense = 1 THEN i.adr % Pow2(cfg.subs[k].aw) ELSE 0,
                              lock |-> Opt(cfg, i, "lock"), cti |-> Opt(cfg, i, "cti"), bte |-> Opt(cfg, i, "bte"),
                              sel |-> i.sel, dat_w |-> i.dat_w]]]
-Init == /\ key \in Keys /\ st = WdInit(cfg) /\ lastin = <<>>
+Init == /\ key \in {Full(k) : k \in Keys} /\ st = WdInit(cfg) /\ lastin = <<>>
         /\ IF Export THEN PrintT(<<"CFG", ToJson([key |-> key, cfg |-> cfg, s0 |-> st])>>) ELSE TRUE
 Next == \E i \in Inputs : st' = st /\ lastin' = i /\ UNCHANGED key
 Spec == Init /\ [][Next]_<<key, st, lastin>>
